@@ -28,7 +28,7 @@ def run_case(execute, case, opts):
 
 def _chunk_worker(args):
     """Parse a slice of the dump, execute every case state under every variant, judge."""
-    path, start, end, family, prop, strict, variants_name, want_phase = args
+    path, start, end, family, prop, strict0, variants_name, want_phase = args
     fam = importlib.import_module("harness.exec_" + family)
     vmod = importlib.import_module("harness.props")
     variants = getattr(vmod, variants_name)
@@ -51,6 +51,7 @@ def _chunk_worker(args):
             stats["nontrivial"] += 1
         if len(samples) < 2:
             samples.append({"case": case, "expected": exp})
+        strict = strict0 and case[0] not in NONSTRICT_OPS      # aggregates are claimed by value (the drivers say the same per case)
         for opts in variants(prop, case):
             out = run_case(fam.execute, case, opts)
             v = judge(exp, out, strict)
@@ -68,6 +69,9 @@ def _chunk_worker(args):
                 else:
                     bad.append({"case": case, "opts": opts, "expected": exp, "observed": out, "verdict": v})
     return stats, bad, samples
+
+
+NONSTRICT_OPS = ("rl_reduce", "rl_hist", "rl2_func")
 
 
 def _split_offsets(path, nparts):
